@@ -647,3 +647,86 @@ func scenarioListenerSched(c *vrun.Ctx) {
 		}
 	}})
 }
+
+func init() { vrun.Register("config/reader-sched", scenarioReaderSched) }
+
+// scenarioReaderSched (C17): a command-line override wins for the running process "also after
+// later API updates": a reader that looks at the setting at any moment of an update - before,
+// between any two of its steps, after - sees the override, never the saved value; the file gets
+// the saved value and never the override. Without an override a reader sees the old value until
+// it sees the new one, and never the old one again.
+func scenarioReaderSched(c *vrun.Ctx) {
+	for _, overridden := range []bool{true, false} {
+		name := "reader-vs-update/no-override"
+		if overridden {
+			name = "reader-vs-update/overridden"
+		}
+		var reads []string
+		var notified []string
+		var final, file string
+		var err error
+		body := func() {
+			cfg := freshConfig()
+			reads, notified = nil, nil
+			if overridden {
+				cfg.Logging.MaxBackups.Overwrite(55)
+				vsched.Quiesce()
+			}
+			cfg.Logging.MaxBackups.OnChange(func(v int) { notified = append(notified, fmt.Sprint(v)) })
+			vsched.GoHarness("updater", func() {
+				_, err = UpdatePartialFromConfig(cfg, doc("logging.max_backups", 7))
+			})
+			vsched.GoHarness("reader", func() {
+				for i := 0; i < 3; i++ {
+					reads = append(reads, fmt.Sprint(cfg.Logging.MaxBackups.Read()))
+				}
+			})
+			vsched.JoinHarness()
+			vsched.Quiesce()
+			final = fmt.Sprint(cfg.Logging.MaxBackups.Read())
+			b, _ := os.ReadFile(configPath.Path)
+			file = string(b)
+		}
+		old := fmt.Sprint(NewDefault().Logging.MaxBackups.Read())
+		c.Explore(vrun.ExploreOpts{Name: name, K: -1, E: -1, Prop: "C17", Body: body, Check: func(x *vsched.Exec) {
+			c.Outcome(name + ":" + strings.Join(reads, ",") + "/" + final + "/" + strings.Join(notified, ","))
+			if err != nil {
+				c.Violation("C17/reader-sched/update-failed", "valid update failed: "+err.Error(), x)
+				return
+			}
+			if !strings.Contains(file, `"max_backups": 7`) && !strings.Contains(file, `"max_backups":7`) {
+				c.Violation("C17/reader-sched/file-lacks-saved-value", "after the update the file does not hold max_backups 7", x)
+			}
+			if overridden {
+				for i, r := range append(append([]string{}, reads...), final) {
+					if r != "55" {
+						c.Violation("C17/reader-sched/override-not-in-effect", fmt.Sprintf("read %d during/after an API update saw %s although the command line says 55 (reads %v, final %s)", i+1, r, reads, final), x)
+						break
+					}
+				}
+				for _, n := range notified {
+					if n != "55" {
+						c.Violation("C17/reader-sched/override-not-in-effect", "a subscriber was handed "+n+" although the command line says 55", x)
+					}
+				}
+				if strings.Contains(file, "55") {
+					c.Violation("C17/reader-sched/override-saved", "the command-line value 55 was written to the file", x)
+				}
+				return
+			}
+			seenNew := false
+			for _, r := range append(append([]string{}, reads...), final) {
+				switch {
+				case r == "7":
+					seenNew = true
+				case r == old && !seenNew:
+				default:
+					c.Violation("C17/reader-sched/reader-sees-neither-old-nor-new", fmt.Sprintf("reads %v then %s: expected %s until 7, then 7", reads, final, old), x)
+				}
+			}
+			if final != "7" {
+				c.Violation("C17/reader-sched/update-not-in-effect", "after the update the setting reads "+final, x)
+			}
+		}})
+	}
+}
